@@ -92,15 +92,20 @@ func goid() int {
 
 // ---------------------------------------------------------------- event log
 
+// Events go to the trace file at once (flushed per event, so that a Go fatal error inside neptune
+// leaves the history that led to it on disk; vlib then appends a `crash` event the spec rejects).
 type evlog struct {
-	mu   sync.Mutex
-	evs  []tr.E
-	gids map[int]int
+	mu     sync.Mutex
+	w      *tr.W
+	closed bool // the world is over: a straggler of a deviant executor must not write into the next trace
+	gids   map[int]int
 }
 
 func (l *evlog) add(e tr.E) {
 	l.mu.Lock()
-	l.evs = append(l.evs, e)
+	if !l.closed {
+		l.w.Emit(e)
+	}
 	l.mu.Unlock()
 }
 
@@ -115,7 +120,9 @@ func (l *evlog) addStart(c, lane, g int) {
 	if lane > 500 || lane < -500 {
 		lane = -500 // keeps the event int32-safe; any out-of-range index is inexplicable anyway
 	}
-	l.evs = append(l.evs, tr.E{"ev": "start", "c": c, "lane": lane, "g": s})
+	if !l.closed {
+		l.w.Emit(tr.E{"ev": "start", "c": c, "lane": lane, "g": s})
+	}
 	l.mu.Unlock()
 }
 
@@ -126,13 +133,15 @@ type call struct {
 	h       int // hash class
 	hv      int // actual hash
 	fail    bool
+	both    bool // a failing callee returns a value together with its error
 	pre     bool
 	ctx     *vctx
 	gate    chan string // "stop": the callee calls Stop itself and waits again; "end": it returns
 	ended   int32       // the gate has been opened (a second entry into the callee does not wait)
 	gated   bool
 	status  string // idle | parked | back
-	running int32  // 1: callee entered and parked on the gate; 2: callee inside Stop
+	running int32  // 1: callee entered and parked on the gate; 2: callee inside Stop; 3: inside a nested call
+	nested  int    // the call this callee has submitted itself and is waiting for (0: none)
 }
 
 type world struct {
@@ -155,6 +164,12 @@ type world struct {
 	hclass     map[int]int // actual hash -> class
 	withIdx    bool
 	spin       int
+	nowg       bool  // runq constructed without WithWaitGroup
+	cfgOK      bool  // the getters have a defined answer (queue size option not negative)
+	waiting    int32 // the owner's wait for termination has been launched
+	lineFn     line.CallFn
+	mlineFn    mline.CallFn
+	callFn     func(ctx context.Context, arg int) (interface{}, error)
 }
 
 type procT struct {
@@ -164,21 +179,57 @@ type procT struct {
 
 func (p procT) Do(ctx context.Context) (interface{}, error) { return p.wd.callee(ctx, 0, p.id) }
 
-func newWorld(kind string, nl, qsize int, withIdx bool) *world {
-	wd := &world{kind: kind, nl: nl, qsize: qsize, wg: &sync.WaitGroup{}, withIdx: withIdx,
-		log: &evlog{gids: map[int]int{}}, hclass: map[int]int{}}
+const qDefault = -2 // queue size option not given at all
+
+// specQ is the queue size as the specification sees it: "not bounded" is 0, and a bound TLC cannot
+// hold (top of the integer range) is carried as 1000000 - far above anything 12 calls can fill.
+func specQ(qopt int) int {
+	switch {
+	case qopt == qDefault:
+		return 8192
+	case qopt < 0:
+		return 0
+	case qopt > 1000000:
+		return 1000000
+	}
+	return qopt
+}
+
+// newWorld constructs the executor and opens its trace.  qopt is the queue size option as passed
+// (0, small, -1, math.MaxInt, or qDefault for "no option").
+func newWorld(w *tr.W, src, kind string, nl, qopt int, withIdx, nowg bool) *world {
+	wd := &world{kind: kind, nl: nl, qsize: specQ(qopt), wg: &sync.WaitGroup{}, withIdx: withIdx,
+		nowg: nowg && kind == "runq", log: &evlog{w: w, gids: map[int]int{}}, hclass: map[int]int{}}
+	w.Emit(tr.E{"ev": "reset", "kind": kind, "nl": nl, "qsize": wd.qsize, "src": src, "idx": withIdx,
+		"qopt": strconv.Itoa(qopt), "nowg": wd.nowg})
 	switch kind {
 	case "line":
-		wd.ln = line.NewLine(wd.wg, line.WithQSize(qsize), line.WithName("c14"))
+		opts := []line.Option{line.WithName("c14")}
+		if qopt != qDefault {
+			opts = append(opts, line.WithQSize(qopt))
+		}
+		wd.ln = line.NewLine(wd.wg, opts...)
 		wd.frag = "neptune/syncx/pipe/line."
 	case "mline":
-		wd.ml = mline.NewMultiLine(pipe.WithSlotSize(nl), pipe.WithQSize(qsize))
+		opts := []pipe.Option{pipe.WithSlotSize(nl)}
+		if qopt != qDefault {
+			opts = append(opts, pipe.WithQSize(qopt))
+		}
+		wd.ml = mline.NewMultiLine(opts...)
 		wd.frag = "neptune/syncx/pipe/mline."
-	case "runq":
-		wd.rq = async.NewRunnerQ(async.WithQSize(qsize), async.WithWaitGroup(wd.wg), async.WithName("c14"))
-		wd.frag = "neptune/syncx/pipe/async."
-	case "pchan":
-		wd.pc = async.NewProcChan(async.WithQSize(qsize), async.WithWaitGroup(wd.wg), async.WithName("c14"))
+	case "runq", "pchan":
+		opts := []async.Option{async.WithName("c14")}
+		if qopt != qDefault {
+			opts = append(opts, async.WithQSize(qopt))
+		}
+		if !wd.nowg {
+			opts = append(opts, async.WithWaitGroup(wd.wg))
+		}
+		if kind == "runq" {
+			wd.rq = async.NewRunnerQ(opts...)
+		} else {
+			wd.pc = async.NewProcChan(opts...)
+		}
 		wd.frag = "neptune/syncx/pipe/async."
 	default:
 		tr.Fatal("unknown kind %q", kind)
@@ -187,14 +238,35 @@ func newWorld(kind string, nl, qsize int, withIdx bool) *world {
 	for i := 1; i <= maxCalls; i++ {
 		wd.calls[i] = &call{id: i, ctx: newCtx(i), gate: make(chan string), status: "idle"}
 	}
+	// one function value per executor, used for every call like a caller would (the call's identity
+	// travels in the parameter)
+	wd.lineFn = func(ctx context.Context, req interface{}) (interface{}, error) {
+		id, _ := req.(int)
+		return wd.callee(ctx, 0, id)
+	}
+	wd.mlineFn = func(ctx context.Context, idx int, req interface{}) (interface{}, error) {
+		id, _ := req.(int)
+		return wd.callee(ctx, idx, id)
+	}
+	wd.callFn = func(ctx context.Context, arg int) (interface{}, error) { return wd.callee(ctx, 0, arg) }
+	wd.base = -1
 	wd.base = wd.pkgGoroutines()
 	return wd
+}
+
+// finish closes the trace of this world.
+func (wd *world) finish() {
+	wd.log.mu.Lock()
+	wd.log.closed = true
+	wd.log.mu.Unlock()
 }
 
 // callee is what every executor is asked to run.
 func (wd *world) callee(ctx context.Context, lane int, id int) (interface{}, error) {
 	if id < 1 || id > maxCalls {
-		tr.Fatal("callee got call id %d", id)
+		// the executor handed the callee a parameter nobody submitted: an observation, not a harness error
+		wd.log.add(tr.E{"ev": "bad", "what": "callee entered with a parameter that is no call id", "lane": clamp(lane)})
+		return nil, resErr{0}
 	}
 	c := wd.calls[id]
 	wd.log.addStart(id, lane, goid())
@@ -205,6 +277,15 @@ func (wd *world) callee(ctx context.Context, lane int, id int) (interface{}, err
 			if cmd == "stop" { // an actor handling its own shutdown command
 				atomic.StoreInt32(&c.running, 2)
 				wd.doStop(id)
+				continue
+			}
+			if cmd == "nest" { // an actor calling into its own executor and waiting for the answer
+				atomic.StoreInt32(&c.running, 3)
+				n := wd.calls[c.nested]
+				r := wd.submit(n)
+				n.status = "back"
+				wd.log.add(tr.E{"ev": "ret", "c": n.id, "r": r})
+				c.nested = 0
 				continue
 			}
 			break
@@ -220,9 +301,19 @@ func (wd *world) callee(ctx context.Context, lane int, id int) (interface{}, err
 	}
 	wd.log.add(tr.E{"ev": "end", "c": id})
 	if c.fail {
+		if c.both {
+			return resVal{id}, resErr{id}
+		}
 		return nil, resErr{id}
 	}
 	return resVal{id}, nil
+}
+
+func clamp(x int) int {
+	if x > 500 || x < -500 {
+		return -500 // keeps the event int32-safe; any out-of-range index is inexplicable anyway
+	}
+	return x
 }
 
 // submit performs the call of caller c on the real executor and classifies the reply.
@@ -237,19 +328,13 @@ func (wd *world) submit(c *call) (rep tr.E) {
 	id := c.id
 	switch wd.kind {
 	case "line":
-		v, err = wd.ln.AsyncCall(c.ctx, line.NewCallCtx(func(ctx context.Context, req interface{}) (interface{}, error) {
-			return wd.callee(ctx, 0, req.(int))
-		}, id))
+		v, err = wd.ln.AsyncCall(c.ctx, line.NewCallCtx(wd.lineFn, id))
 	case "mline":
-		v, err = wd.ml.AsyncCall(c.ctx, mline.NewCallCtx(c.hv, func(ctx context.Context, idx int, req interface{}) (interface{}, error) {
-			return wd.callee(ctx, idx, req.(int))
-		}, id))
+		v, err = wd.ml.AsyncCall(c.ctx, mline.NewCallCtx(c.hv, wd.mlineFn, id))
 	case "runq":
 		switch id % 3 {
 		case 0:
-			v, err = wd.rq.AsyncCall(func(ctx context.Context, arg int) (interface{}, error) {
-				return wd.callee(ctx, 0, arg)
-			}, c.ctx, id)
+			v, err = wd.rq.AsyncCall(wd.callFn, c.ctx, id)
 		case 1:
 			v, err = wd.rq.AsyncDelegate(c.ctx, func(ctx context.Context) (interface{}, error) {
 				return wd.callee(ctx, 0, id)
@@ -270,12 +355,17 @@ func classify(v interface{}, err error) tr.E {
 		}
 		return tr.E{"k": "other", "v": 0, "e": false, "msg": fmt.Sprintf("%#v", v)}
 	}
+	if e, ok := err.(resErr); ok {
+		// a failing callee may hand back a value too; an executor may pass it on or drop it, but it
+		// must be the value of the same call
+		if r, isv := v.(resVal); v == nil || (isv && r.id == e.id) {
+			return tr.E{"k": "res", "v": e.id, "e": true}
+		}
+	}
 	if v != nil {
 		return tr.E{"k": "other", "v": 0, "e": false, "msg": fmt.Sprintf("value %#v with error %v", v, err)}
 	}
 	switch e := err.(type) {
-	case resErr:
-		return tr.E{"k": "res", "v": e.id, "e": true}
 	case ctxErr:
 		return tr.E{"k": "ctx", "v": e.id, "e": false}
 	}
@@ -294,21 +384,58 @@ func (wd *world) doRun() {
 	switch wd.kind {
 	case "line":
 		wd.ln.Run()
-		go func() { wd.wg.Wait(); atomic.StoreInt32(&wd.term, 1) }()
 	case "mline":
 		wd.ml.Run()
-		go func() {
-			if err := wd.ml.WaitStop(context.Background()); err == nil {
-				atomic.StoreInt32(&wd.term, 1)
-			}
-		}()
 	case "runq":
 		wd.rq.Run()
-		go func() { wd.rq.WaitStop(); wd.wg.Wait(); atomic.StoreInt32(&wd.term, 1) }()
 	case "pchan":
 		wd.pc.Run()
-		go func() { wd.wg.Wait(); atomic.StoreInt32(&wd.term, 1) }()
 	}
+	wd.await()
+}
+
+// await launches the owner's wait for termination (once); `term` is logged when it returns.  A wait
+// group only counts from Run on, so for line / pchan (and the wait group of runq) it starts after
+// Run has returned; MultiLine.WaitStop and RunnerQ.WaitStop may be called at any time (early).
+func (wd *world) await() {
+	if !atomic.CompareAndSwapInt32(&wd.waiting, 0, 1) {
+		return
+	}
+	early := !wd.started
+	go func() {
+		switch wd.kind {
+		case "line", "pchan":
+			wd.wg.Wait()
+		case "mline":
+			if err := wd.ml.WaitStop(context.Background()); err != nil {
+				wd.log.add(tr.E{"ev": "bad", "what": "WaitStop(background): " + err.Error(), "lane": 0})
+				return
+			}
+		case "runq":
+			wd.rq.WaitStop()
+			if !wd.nowg && !early {
+				wd.wg.Wait()
+			}
+		}
+		wd.log.add(tr.E{"ev": "term"})
+		atomic.StoreInt32(&wd.term, 1)
+	}()
+}
+
+// cfg logs what the getters report.
+func (wd *world) cfg() {
+	e := tr.E{"ev": "cfg", "nl": 1, "q": 0}
+	switch wd.kind {
+	case "line":
+		e["q"] = specQ(wd.ln.QSize())
+	case "mline":
+		e["nl"], e["q"] = clamp(wd.ml.SlotSize()), specQ(wd.ml.QSize())
+	case "runq":
+		e["q"] = specQ(wd.rq.Size())
+	case "pchan":
+		e["q"] = specQ(wd.pc.Size())
+	}
+	wd.log.add(e)
 }
 
 // doStop calls Stop on the calling goroutine (a harness worker, a stress goroutine or a callee);
@@ -332,6 +459,7 @@ func (wd *world) doStop(by int) {
 // prepare fixes the parameters of call c and logs its invocation (and, once per hash class, what
 // MultiLine.IndexOf says about it).
 func (wd *world) prepare(c *call, hv int, fail, pre, gated bool) bool {
+	c.both = fail && (c.id+hv)%2 == 0
 	cl, ok := wd.hclass[hv]
 	if !ok {
 		if len(wd.hclass) >= maxHashes {
@@ -340,11 +468,7 @@ func (wd *world) prepare(c *call, hv int, fail, pre, gated bool) bool {
 		cl = len(wd.hclass) + 1
 		wd.hclass[hv] = cl
 		if wd.kind == "mline" && wd.withIdx {
-			r := wd.ml.IndexOf(hv)
-			if r > 500 || r < -500 {
-				r = -500
-			}
-			wd.log.add(tr.E{"ev": "idx", "h": cl, "r": r, "hv": strconv.Itoa(hv)})
+			wd.log.add(tr.E{"ev": "idx", "h": cl, "r": clamp(wd.ml.IndexOf(hv)), "hv": strconv.Itoa(hv)})
 		}
 	}
 	c.h, c.hv, c.fail, c.pre, c.gated = cl, hv, fail, pre, gated
@@ -372,13 +496,25 @@ func (wd *world) pkgGoroutines() int {
 	for _, blk := range strings.Split(string(buf), "\n\n") {
 		if strings.Contains(blk, wd.frag) && !strings.Contains(blk, "main.(*world).submit(") {
 			cnt++
+			if os.Getenv("C14DBG") != "" && wd.base == -1 {
+				fmt.Fprintf(os.Stderr, "BASE %s\n%s\n\n", wd.kind, blk)
+			}
 		}
 	}
 	return cnt
 }
 
 // alive: some goroutine of the executor is left.
-func (wd *world) alive() bool { return wd.pkgGoroutines()-wd.base > 0 }
+func (wd *world) alive() bool {
+	a := wd.pkgGoroutines()-wd.base > 0
+	if !a && os.Getenv("C14DBG") != "" && wd.x != nil && len(wd.x.W) > 0 && wd.atGate() != 0 {
+		buf := make([]byte, 1<<20)
+		n := runtime.Stack(buf, true)
+		fmt.Fprintf(os.Stderr, "ANOMALY base=%d\n%s\n", wd.base, buf[:n])
+		os.Exit(3)
+	}
+	return a
+}
 
 // ---------------------------------------------------------------- step mode
 
@@ -422,6 +558,16 @@ func (wd *world) applicable(a act) bool {
 		return a.C >= 1 && a.C <= maxCalls && atomic.LoadInt32(&wd.calls[a.C].running) == 1
 	case "cancel":
 		return a.C >= 1 && a.C <= maxCalls && wd.calls[a.C].status != "idle" && !wd.calls[a.C].ctx.ended()
+	case "nest": // the callee of running call By (0: whichever is running) submits call C itself
+		if a.By == 0 {
+			a.By = wd.atGate()
+		}
+		return a.By >= 1 && a.By <= maxCalls && atomic.LoadInt32(&wd.calls[a.By].running) == 1 &&
+			a.C >= 1 && a.C <= maxCalls && wd.calls[a.C].status == "idle"
+	case "cfg":
+		return wd.cfgOK
+	case "wait": // the owner starts waiting for termination before Run
+		return !wd.started && (wd.kind == "mline" || wd.kind == "runq")
 	}
 	return false
 }
@@ -452,11 +598,27 @@ func (wd *world) step(a act) {
 	case "cancel":
 		wd.log.add(tr.E{"ev": "cancel", "c": a.C})
 		wd.calls[a.C].ctx.cancel()
+	case "nest":
+		if a.By == 0 {
+			a.By = wd.atGate()
+		}
+		c := wd.calls[a.C]
+		if !wd.prepare(c, a.H, a.Fail, a.Pre, true) {
+			return
+		}
+		c.status = "nested"
+		wd.calls[a.By].nested = c.id
+		wd.calls[a.By].gate <- "nest"
+	case "cfg":
+		wd.cfg()
+	case "wait":
+		wd.await()
 	}
 	wd.settle()
 }
 
 func (wd *world) settle() {
+	// (a parked goroutine is an observation; only "still running after the budget" is inconclusive)
 	if err := wd.x.Settle(); err != nil {
 		tr.Fatal("%v", err)
 	}
@@ -484,11 +646,19 @@ func (wd *world) drain() {
 	if !wd.started {
 		wd.step(act{Op: "run"})
 	}
-	for round := 0; round < 6*maxCalls; round++ {
+	for round := 0; round < 8*maxCalls; round++ {
 		found := false
 		for i := 1; i <= maxCalls; i++ {
-			if atomic.LoadInt32(&wd.calls[i].running) == 1 {
+			c := wd.calls[i]
+			if atomic.LoadInt32(&c.running) == 1 {
 				wd.step(act{Op: "end", C: i})
+				found = true
+				break
+			}
+			// a callee waiting for a call it queued behind itself is released through that call's context
+			if n := c.nested; atomic.LoadInt32(&c.running) == 3 && n != 0 && !wd.calls[n].ctx.ended() &&
+				atomic.LoadInt32(&wd.calls[n].running) == 0 {
+				wd.step(act{Op: "cancel", C: n})
 				found = true
 				break
 			}
@@ -503,21 +673,14 @@ func (wd *world) drain() {
 	}
 	// consumers started, Stop called, every gate a callee reached opened: what is parked now stays
 	// parked.  The spec decides whether this is a proper end (Final).
-	wd.log.mu.Lock()
-	wd.log.evs[len(wd.log.evs)-1]["final"] = true
-	wd.log.mu.Unlock()
+	wd.quiet(true)
 	wd.x.Stop()
+	wd.finish()
 }
 
-func (wd *world) flush(w *tr.W, src string) {
-	w.Emit(tr.E{"ev": "reset", "kind": wd.kind, "nl": wd.nl, "qsize": wd.qsize, "src": src, "idx": wd.withIdx})
-	for _, e := range wd.log.evs {
-		w.Emit(e)
-	}
-}
-
-func runPlan(w *tr.W, src, kind string, nl, qsize int, withIdx bool, plan []act) {
-	wd := newWorld(kind, nl, qsize, withIdx)
+func runPlan(w *tr.W, src, kind string, nl, qopt int, withIdx, nowg bool, plan []act) {
+	wd := newWorld(w, src, kind, nl, qopt, withIdx, nowg)
+	wd.cfgOK = qopt >= 0 || qopt == qDefault
 	wd.x = qx.New(maxCalls + 1)
 	for _, a := range plan {
 		if !wd.applicable(a) {
@@ -526,7 +689,6 @@ func runPlan(w *tr.W, src, kind string, nl, qsize int, withIdx bool, plan []act)
 		wd.step(a)
 	}
 	wd.drain()
-	wd.flush(w, src)
 }
 
 // modelHash maps the 4-bit model integers of Lanes_Gen.cfg to the integers they stand for.
@@ -554,11 +716,19 @@ func randPlan(rng *rand.Rand, nl, n int) []act {
 	pool := hashPool(rng, nl)
 	var out []act
 	next := 1
+	if rng.Intn(6) == 0 {
+		out = append(out, act{Op: "wait"}) // the owner waits for termination before anything else
+	}
 	if rng.Intn(10) < 8 {
 		out = append(out, act{Op: "run"})
 	}
 	for i := 0; i < n; i++ {
-		switch x := rng.Intn(100); {
+		switch x := rng.Intn(106); {
+		case x >= 103:
+			out = append(out, act{Op: "cfg"})
+		case x >= 100 && next <= maxCalls: // a running callee calls into its own executor
+			out = append(out, act{Op: "nest", By: 0, C: next, H: pool[rng.Intn(len(pool))], Pre: rng.Intn(3) == 0})
+			next++
 		case x < 35 && next <= maxCalls:
 			out = append(out, act{Op: "inv", C: next, H: pool[rng.Intn(len(pool))], Fail: rng.Intn(3) == 0, Pre: rng.Intn(8) == 0})
 			next++
@@ -634,9 +804,10 @@ func readPlan(path string) []act {
 // ---------------------------------------------------------------- stress mode
 
 // stopMode 0: Stop when all callers are done; 1: Stop from a goroutine of its own after a random
-// number of calls; 2: the callee of a random call calls Stop itself.
-func runStress(w *tr.W, rng *rand.Rand, kind string, nl, qsize, threads, per int, stopMode int) {
-	wd := newWorld(kind, nl, qsize, true)
+// number of calls; 2: the callee of a random call calls Stop itself.  A reader goroutine asks the
+// getters meanwhile.
+func runStress(w *tr.W, rng *rand.Rand, kind string, nl, qopt, threads, per int, stopMode int) {
+	wd := newWorld(w, "stress", kind, nl, qopt, true, rng.Intn(3) == 0)
 	wd.x = qx.New(0)
 	wd.spin = rng.Intn(4)
 	pool := hashPool(rng, nl)[:3]
@@ -656,14 +827,15 @@ func runStress(w *tr.W, rng *rand.Rand, kind string, nl, qsize, threads, per int
 	if stopMode == 2 {
 		wd.stopFrom = 1 + rng.Intn(threads*per)
 	}
+	reads := 0
+	if qopt >= 0 {
+		reads = rng.Intn(4)
+	}
 	var next, done int32
 	var prep sync.Mutex // id allocation + inv logging are one step, so ids increase along the log
-	var cwg sync.WaitGroup
 	wd.doRun()
 	for t := 0; t < threads; t++ {
-		cwg.Add(1)
 		go func() {
-			defer cwg.Done()
 			for i := 0; i < per; i++ {
 				prep.Lock()
 				id := int(atomic.AddInt32(&next, 1))
@@ -691,35 +863,220 @@ func runStress(w *tr.W, rng *rand.Rand, kind string, nl, qsize, threads, per int
 			}
 		}()
 	}
-	// no caller may be parked for ever; if one is, the final `quiet` records a state the spec rejects
+	go func() {
+		for i := 0; i < reads; i++ {
+			wd.cfg()
+			runtime.Gosched()
+		}
+	}()
+	wd.finale()
+}
+
+// finale ends a free-running world: when everything is parked, Stop is called if nobody did (never
+// on this goroutine: Stop may wait, and a Stop that never returns is the spec's business), and the
+// final quiescent point is logged.  No caller may be parked for ever; if one is, that `quiet`
+// records a state the spec rejects.
+func (wd *world) finale() {
 	if err := wd.x.Settle(); err != nil {
-		tr.Fatal("stress: %v", err)
+		tr.Fatal("free-running: %v", err)
+	}
+	if !wd.started {
+		go wd.doRun()
+		if err := wd.x.Settle(); err != nil {
+			tr.Fatal("free-running: %v", err)
+		}
 	}
 	if atomic.LoadInt32(&wd.stopIssued) == 0 {
-		go wd.doStop(0) // never on this goroutine: Stop may wait, and a Stop that never returns is the spec's business
+		go wd.doStop(0)
 		if err := wd.x.Settle(); err != nil {
-			tr.Fatal("stress: %v", err)
+			tr.Fatal("free-running: %v", err)
 		}
 	}
 	wd.quiet(true)
-	wd.flush(w, "stress")
+	wd.finish()
+}
+
+// ---------------------------------------------------------------- life-cycle rounds
+
+// release starts the actions of one phase; several actions are held at a spin barrier and let go
+// together, so that a fresh executor is first touched under contention.
+func release(fs []func()) {
+	if len(fs) == 1 {
+		go fs[0]()
+		return
+	}
+	var arrived, open int32
+	for _, f := range fs {
+		go func(f func()) {
+			atomic.AddInt32(&arrived, 1)
+			for atomic.LoadInt32(&open) == 0 {
+				runtime.Gosched()
+			}
+			f()
+		}(f)
+	}
+	for int(atomic.LoadInt32(&arrived)) < len(fs) {
+		runtime.Gosched()
+	}
+	atomic.StoreInt32(&open, 1)
+}
+
+const lifeFamilies = 14
+
+// runLife: a short script of phases on a fresh executor.  The actions of one phase run concurrently
+// (released together), phases are separated by global quiescence.  C = the callers (each makes one
+// or two calls, callee not gated), R = Run, S = Stop, RS = Run and Stop back to back on one
+// goroutine.  Families 0-5 are the six sequential orders of C, R, S (use before start, stop before
+// start, accept-stop-run ...); 6-13 put them in one phase (start racing stop, first use racing
+// start, stop racing submissions, immediate stop after start).  Decorations: Stop twice, Run twice
+// (where Run is guarded by a once), the owner waiting for termination from the very beginning
+// (WaitStop of MultiLine / RunnerQ), getters.
+func runLife(w *tr.W, rng *rand.Rand, kind string, nl, qopt, family int) {
+	wd := newWorld(w, fmt.Sprintf("life:%d", family), kind, nl, qopt, true, rng.Intn(3) == 0)
+	wd.x = qx.New(0)
+	wd.spin = rng.Intn(3)
+	pool := hashPool(rng, nl)[:3]
+	hv := make([]int, maxCalls+1)
+	fail := make([]bool, maxCalls+1)
+	pre := make([]bool, maxCalls+1)
+	for i := range hv {
+		hv[i], fail[i], pre[i] = pool[rng.Intn(len(pool))], rng.Intn(3) == 0, rng.Intn(10) == 0
+	}
+	var next int32
+	var prep sync.Mutex
+	var C []func()
+	for k := 1 + rng.Intn(4); k > 0; k-- {
+		n := 1 + rng.Intn(2)
+		C = append(C, func() {
+			for i := 0; i < n; i++ {
+				prep.Lock()
+				id := int(atomic.AddInt32(&next, 1))
+				if id > maxCalls {
+					prep.Unlock()
+					return
+				}
+				c := wd.calls[id]
+				ok := wd.prepare(c, hv[id], fail[id], pre[id], false)
+				prep.Unlock()
+				if !ok {
+					tr.Fatal("hash classes exhausted")
+				}
+				r := wd.submit(c)
+				wd.log.add(tr.E{"ev": "ret", "c": id, "r": r})
+			}
+		})
+	}
+	R := []func(){wd.doRun}
+	S := []func(){func() { wd.doStop(0) }}
+	RS := []func(){func() { wd.doRun(); wd.doStop(0) }}
+	cat := func(a ...[]func()) []func() {
+		var out []func()
+		for _, x := range a {
+			out = append(out, x...)
+		}
+		return out
+	}
+	var phases [][]func()
+	switch family {
+	case 0:
+		phases = [][]func(){C, R, S}
+	case 1:
+		phases = [][]func(){C, S, R}
+	case 2:
+		phases = [][]func(){R, C, S}
+	case 3:
+		phases = [][]func(){R, S, C}
+	case 4:
+		phases = [][]func(){S, C, R}
+	case 5:
+		phases = [][]func(){S, R, C}
+	case 6:
+		phases = [][]func(){cat(R, S), C}
+	case 7:
+		phases = [][]func(){cat(C, R, S)}
+	case 8:
+		phases = [][]func(){cat(C, R), S}
+	case 9:
+		phases = [][]func(){C, RS}
+	case 10:
+		phases = [][]func(){cat(C, RS)}
+	case 11:
+		phases = [][]func(){cat(C, S), R}
+	case 12:
+		phases = [][]func(){RS, C}
+	default:
+		phases = [][]func(){R, cat(C, S)}
+	}
+	if rng.Intn(3) == 0 { // Stop twice
+		i := rng.Intn(len(phases) + 1)
+		if i == len(phases) {
+			phases = append(phases, S)
+		} else {
+			phases[i] = cat(phases[i], S)
+		}
+	}
+	if kind != "mline" && rng.Intn(4) == 0 { // Run twice (MultiLine.Run has no once: not permitted there)
+		i := rng.Intn(len(phases))
+		phases[i] = cat(phases[i], R)
+	}
+	if (kind == "mline" || kind == "runq") && rng.Intn(2) == 0 {
+		phases = append([][]func(){{wd.await}}, phases...)
+	}
+	if qopt >= 0 && rng.Intn(2) == 0 {
+		i := rng.Intn(len(phases))
+		phases[i] = cat(phases[i], []func(){wd.cfg})
+	}
+	for _, ph := range phases {
+		release(ph)
+		if err := wd.x.Settle(); err != nil {
+			tr.Fatal("life: %v", err)
+		}
+	}
+	wd.finale()
 }
 
 func main() {
 	plans := flag.String("plans", "", "directory of TLC-generated plans")
-	out := flag.String("out", "steps.ndjson", "step traces")
-	stress := flag.String("stress", "stress.ndjson", "stress traces")
+	out := flag.String("out", "traces.ndjson", "all traces (reset.src tells the mode)")
 	seed := flag.Int64("seed", 1, "seed")
 	nrand := flag.Int("rand", 100, "random schedules")
 	nstress := flag.Int("nstress", 20, "stress runs")
+	nlife := flag.Int("nlife", 56, "life-cycle rounds")
 	flag.Parse()
 	rng := rand.New(rand.NewSource(*seed))
 	ulog.SetLogLevelStr("error")
 
 	kinds := []string{"line", "mline", "runq", "pchan", "mline", "pchan"}
+	kinds4 := []string{"line", "mline", "runq", "pchan"}
 	lanesL := []int{1, 2, 3, 7}
-	qsL := []int{0, 1, 2, 8}
+	// queue size options: the usual ones and the extremes every constructor accepts (negative = not
+	// bounded, top of the integer range, option not given); a proc channel takes only what make(chan)
+	// takes
+	qopt := func(kind string) int {
+		if x := rng.Intn(8); x == 0 {
+			ext := []int{-1, math.MaxInt, qDefault}
+			if kind == "pchan" {
+				return qDefault
+			}
+			return ext[rng.Intn(len(ext))]
+		}
+		return []int{0, 1, 2, 8}[rng.Intn(4)]
+	}
+	lanes := func(kind string) int {
+		if kind != "mline" {
+			return 1
+		}
+		if rng.Intn(6) == 0 {
+			return 4 + rng.Intn(3)
+		}
+		return lanesL[rng.Intn(len(lanesL))]
+	}
 	w := tr.Create(*out)
+	// life-cycle rounds first: every family on every kind of executor in turn
+	for i := 0; i < *nlife; i++ {
+		kind := kinds4[i%4]
+		runLife(w, rng, kind, lanes(kind), qopt(kind), (i/4)%lifeFamilies)
+	}
 	if *plans != "" {
 		files, _ := filepath.Glob(filepath.Join(*plans, "*.ndjson"))
 		sort.Strings(files)
@@ -730,37 +1087,28 @@ func main() {
 			}
 			// a plan is a schedule of external actions; it is applied to every kind of executor and
 			// every lane count in turn (steps that do not apply are skipped)
-			kind := []string{"line", "mline", "runq", "pchan"}[i%4]
+			kind := kinds4[i%4]
 			nl := 1
 			if kind == "mline" {
 				nl = lanesL[(i/4)%len(lanesL)]
 			}
-			runPlan(w, "plan:"+filepath.Base(f), kind, nl, p[0].Qsize, true, p[1:])
+			runPlan(w, "plan:"+filepath.Base(f), kind, nl, p[0].Qsize, true, i%3 == 0, p[1:])
 		}
 	}
 	for i := 0; i < *nrand; i++ {
 		kind := kinds[rng.Intn(len(kinds))]
-		nl := 1
-		if kind == "mline" {
-			nl = lanesL[rng.Intn(len(lanesL))]
-		}
+		nl := lanes(kind)
 		plan := randPlan(rng, nl, 25+rng.Intn(35))
 		// IndexOf is probed for every new hash; in a few schedules that start the consumers first
 		// it is not, and the lane of a hash is learned from where its calls run
 		withIdx := !(plan[0].Op == "run" && rng.Intn(8) == 0)
-		runPlan(w, "rand", kind, nl, qsL[rng.Intn(len(qsL))], withIdx, plan)
+		runPlan(w, "rand", kind, nl, qopt(kind), withIdx, rng.Intn(3) == 0, plan)
 	}
-	w.Close()
-	sw := tr.Create(*stress)
 	for i := 0; i < *nstress; i++ {
 		kind := kinds[i%len(kinds)]
-		nl := 1
-		if kind == "mline" {
-			nl = lanesL[rng.Intn(len(lanesL))]
-		}
 		threads := 2 + rng.Intn(3)
-		runStress(sw, rng, kind, nl, qsL[rng.Intn(len(qsL))], threads, maxCalls/threads, rng.Intn(4)%3)
+		runStress(w, rng, kind, lanes(kind), qopt(kind), threads, maxCalls/threads, rng.Intn(4)%3)
 	}
-	sw.Close()
-	fmt.Printf("step_events=%d stress_events=%d\n", w.N(), sw.N())
+	w.Close()
+	fmt.Printf("events=%d\n", w.N())
 }
